@@ -44,6 +44,8 @@ struct thr {
 	long nsleeps;
 	int aim;             /* the thread has just cleared a flag (1 -> 0) with an atomic store: its next shared plain access is an aimed preemption point */
 	long pending_snap;   /* trace index whose post-state snapshot is taken when this thread next parks */
+	int obs_on;          /* observer mode (vrt_observer_begin/end): plain writes outside [obs_lo, obs_hi) and the own stack are C16 violations */
+	const char *obs_lo, *obs_hi;
 };
 static struct thr T[MAXT];
 static int nthr = 1; /* T[0] is main */
@@ -310,6 +312,13 @@ void vrt_plain (const void *addr, int size, int is_write, const void *pc) {
 	if (!started || in_snapshot || t == 0) return;
 	nplain++;
 	if ((char *) addr >= T[t].stack_lo && (char *) addr < T[t].stack_hi) return; /* own stack */
+	if (is_write && T[t].obs_on && !((const char *) addr >= T[t].obs_lo && (const char *) addr + size <= T[t].obs_hi)) {
+		/* observer mode (C16): this thread is inside a call that may only observe */
+		char nm[48];
+		addr_name (addr, nm, sizeof (nm));
+		vrt_fail ("C16", "plain write of %d bytes at %p (%s) by thread %d inside a debug-state call: the debug-state functions "
+			  "may write only into the caller's buffer", size, addr, nm, t);
+	}
 	if (T[t].aim && aim_pct > 0) {
 		T[t].aim = 0;
 		if ((int) vrt_rand (100) < aim_pct) {
@@ -358,6 +367,12 @@ void vrt_plain (const void *addr, int size, int is_write, const void *pc) {
 		}
 	}
 }
+/* observer mode: between begin and end the calling thread may make plain writes only to [allowed, allowed+n) and to its own stack */
+void vrt_observer_begin (const void *allowed, size_t n) {
+	struct thr *me = &T[self_id];
+	me->obs_lo = (const char *) allowed; me->obs_hi = me->obs_lo + n; me->obs_on = 1;
+}
+void vrt_observer_end (void) { T[self_id].obs_on = 0; }
 void vrt_client_write (const void *addr, const char *what) { (void) what; vrt_plain (addr, 4, 1, NULL); }
 void vrt_client_read (const void *addr, const char *what) { (void) what; vrt_plain (addr, 4, 0, NULL); }
 
